@@ -16,14 +16,14 @@ class E2:
     def __init__(self, name, harness, sources=(), defines=(), entry='harness', max_paths=100000, max_steps=3_000_000, timeout=300,
                  bounds='', functions=(), stubs=(), assumptions=(), leaks=False, summaries=(), exclude=None, weight=1, validate=3,
                  ref=(), max_depth=120, fork_max=8, all_lib=False, opt=None, openmp=False, expect_paths_min=1, native_replay=True, mem_gb=12,
-                 unconfirmed_ok_kinds=()):
+                 unconfirmed_ok_kinds=(), stop_distinct=6):
         self.name = name; self.harness = harness; self.sources = list(sources); self.defines = list(defines); self.entry = entry
         self.max_paths = max_paths; self.max_steps = max_steps; self.timeout = timeout; self.bounds = bounds
         self.functions = list(functions); self.stubs = list(stubs); self.assumptions = list(assumptions); self.leaks = leaks
         self.summaries = list(summaries); self.exclude = exclude; self.weight = weight; self.validate = validate; self.ref = list(ref)
         self.openmp = openmp; self.max_depth = max_depth; self.fork_max = fork_max; self.all_lib = all_lib; self.opt = opt
         self.expect_paths_min = expect_paths_min; self.native_replay = native_replay; self.mem_gb = mem_gb
-        self.engine = 'E2/symx'
+        self.engine = 'E2/symx'; self.stop_distinct = stop_distinct
         if all_lib:
             self.sources = [s for s in LIB_SOURCES if not s.startswith('src/simd/x86/')]
 
@@ -72,6 +72,7 @@ class E2:
         cmd = ['python3-vt', os.path.join(VERIF, 'symx', 'run.py'), ll, self.entry, '--json', outj, '--max-paths', str(self.max_paths),
                '--max-steps', str(self.max_steps), '--timeout', str(max(5, self.timeout - (time.time() - t0) - 5)), '--max-depth', str(self.max_depth),
                '--fork-max', str(self.fork_max), '--samples', str(max(self.validate, 3))]
+        if self.stop_distinct: cmd += ['--stop-distinct', str(self.stop_distinct)]
         if self.leaks: cmd.append('--leaks')
         if self.summaries: cmd += ['--summaries', ','.join(self.summaries)]
         rc, out, serr, secs, to = run(cmd, timeout=self.timeout + 30, mem_gb=self.mem_gb)
@@ -89,11 +90,36 @@ class E2:
             for v in viol:
                 seen.setdefault((v['kind'], v['msg'][:80], v['where'], v.get('failed_alloc'), v.get('io_failed'), v.get('io_fail_op'), str(v.get('interfered'))), v)
             uniq = list(seen.values())
+            # violations whose call site is listed by an OPEN known finding of this property are reported as KNOWN-FINDING
+            # (after native confirmation); anything else is still a VIOLATION
+            sigs = []
+            for f in load_findings():
+                if f.get('status') == 'open' and pid in f.get('properties', []):
+                    for sg in f.get('signatures', []):
+                        sigs.append((f['id'], sg))
+            def known_id(v):
+                for fid, sg in sigs:
+                    if sg.get('kind') and sg['kind'] != v['kind']: continue
+                    if sg.get('where') and sg['where'] not in v['where'].split(' <- ')[0]: continue
+                    if sg.get('chain') and not all(c in v['where'] for c in sg['chain']): continue
+                    if sg.get('msg') and sg['msg'] not in v['msg']: continue
+                    return fid
+                return None
+            known_hits = [(known_id(v), v) for v in uniq]
+            new_v = [v for k, v in known_hits if k is None]
+            if not new_v and known_hits:
+                # confirm one natively so that the KNOWN-FINDING line is about something that still reproduces
+                fid, v = known_hits[0]
+                rep = self._native(d, v, extra) if self.native_replay else {'verdict': 'not-replayed'}
+                ids = sorted({k for k, _ in known_hits})
+                return mk('known', '%s: %s @ %s [native: %s]' % (v['kind'], v['msg'], v['where'], rep.get('verdict')), stats=stats, known=','.join(ids),
+                          sample={'inputs': compact(v.get('model')), 'kind': v['kind'], 'where': v['where']}, functions=functions)
+            uniq = new_v + [v for k, v in known_hits if k is not None]
             confirmed = None; reports = []
             for v in uniq[:12]:
                 rep = self._native(d, v, extra) if self.native_replay else {'verdict': 'not-replayed'}
                 reports.append({'kind': v['kind'], 'msg': v['msg'], 'where': v['where'], 'replay': rep.get('verdict'), 'out': rep.get('output', '')[-400:]})
-                if rep.get('verdict') == 'reproduced' and confirmed is None:
+                if rep.get('verdict') == 'reproduced' and confirmed is None and known_id(v) is None:
                     confirmed = (v, rep)
             payload = {'property': pid, 'obligation': self.name, 'engine': self.engine, 'harness': self.harness, 'defines': self.defines + extra,
                        'violations': [{k: v[k] for k in ('kind', 'msg', 'where', 'model', 'choices', 'failed_alloc', 'io_failed', 'io_fail_op', 'interfered', 'notes') if k in v} for v in uniq[:40]],
